@@ -33,6 +33,7 @@ template<class T> std::vector<T> srgb_points(int N, int nrand, Rng& rng) {
     const T knees[2] = { static_cast<T>(0.0031308), static_cast<T>(0.04045) };
     for (T k : knees) for (int d = -3; d <= 3; ++d) p.push_back(nudge(k, d));
     for (int d = -2; d <= 2; ++d) { p.push_back(nudge(ratio<T>(31308, 10000000), d)); p.push_back(nudge(ratio<T>(4045, 100000), d)); }
+    for (T k : knees) for (int e = 3; e <= 19; e += 2) { p.push_back(k + k * pow2<T>(-e)); p.push_back(k - k * pow2<T>(-e - 1)); }     // any other threshold is separated from the documented one
     for (int e = 1; e <= 24; ++e) { p.push_back(pow2<T>(-e)); p.push_back(T(3) * pow2<T>(-e - 2)); }
     p.push_back(pow2<T>(-60)); p.push_back(std::numeric_limits<T>::min()); p.push_back(std::numeric_limits<T>::denorm_min());
     p.push_back(nudge(T(1), -1)); p.push_back(nudge(T(1), -2));
